@@ -2,6 +2,7 @@
 C13 — finished work is released.
 Model: task slabs of commands and of the executor, the bridge registry (M.Slab), `finishTask`, `execRunTask`, `resume`.
 -/
+import CruxVerif.Lemmas.CompleteS
 import CruxVerif.Lemmas.Bridge
 import CruxVerif.Lemmas.RtTask
 import CruxVerif.Lemmas.Resolve
@@ -134,5 +135,45 @@ theorem finished_commands_leave_the_executor_bridge_flat (prog : M.Hosts.Prog) (
     · rw [e2] at hr1; cases hr1
     · rw [e1] at s; cases s
   · exact d
+
+/-- **RESOURCE USE IS BOUNDED BY OUTSTANDING WORK — every stored task is charged to a request the shell still holds.** For
+    every simpleS task program (emit, notify, request, stream, spawn, join, select, self-wake in any nesting) under the direct
+    host, after EVERY history: every task still in the command's slab has its own waker registered in a channel whose
+    sender is alive (a request or stream the shell can still resolve or drop; `legacy` channels do not occur under this
+    host). A channel holds one waker and a waker names its task, so distinct stored tasks are charged to distinct
+    outstanding requests: the slab's occupancy never exceeds the number of outstanding requests, whatever the length of the
+    history. Invariants `GInv` (parked at own registrations), `LQ` (a registered waker means a live sender), `CS` (a task
+    suspended only at closed requests is queued or held by a channel) and `runDirect_cs` (the ready queue is empty after
+    every observation). -/
+theorem stored_tasks_are_charged_to_outstanding_requests (is : List Instr) (hf : hostFreeIs is = true)
+    (hs : simpleSIs is = true) (canon : Bool) (acts : List M.Hosts.Action) (os : List M.Hosts.Obs) (d : M.Hosts.Direct)
+    (h : M.Hosts.runDirect (.task is) canon acts = some (os, d)) (tid : Nat) (t : Task)
+    (hg : (d.w.cmd d.cid).tasks.get? tid = some t) :
+    ∃ l s, l < d.w.leaves.length ∧ (d.w.leaf l).waker = some (.task d.cid tid s) ∧
+      ((d.w.leaf l).senderAlive = true ∨ (d.w.leaf l).legacy = true) := by
+  obtain ⟨cs, hr⟩ := M.Hosts.runDirect_cs is hf hs canon acts os d h
+  have gl := M.Hosts.runDirect_gl is hf canon acts os d h
+  have held : ∃ l s, (d.w.leaf l).waker = some (.task d.cid tid s) := by
+    cases hgo : goneOnlyB t.fut with
+    | false =>
+      rcases gl.1.gp tid t hg (fun e => by cases e) with h1 | h1 | ⟨s, h1⟩
+      · rw [hr] at h1; cases h1
+      · rw [cs.na.getMeta] at h1; cases h1
+      · obtain ⟨l, _, hl⟩ := live_point_of_parked _ d.w t.fut h1 hgo
+        exact ⟨l, s, hl⟩
+    | true =>
+      have dead := deadOnly_of_goneOnly_s t.fut (cs.sp.t t (M.Slab.mem_values_of_get _ _ _ hg)) hgo
+      rcases cs.nd tid t hg (fun e => by cases e) dead with h1 | h1
+      · rw [hr] at h1; cases h1
+      · exact h1
+  obtain ⟨l, s, hl⟩ := held
+  exact ⟨l, s, leaf_some_lt hl, hl, gl.2 l _ hl⟩
+
+/-- … and distinct stored tasks are charged to distinct channels (a channel holds one waker) -/
+theorem charges_are_distinct (w : World) (c tid tid' s s' l : Nat) (h : (w.leaf l).waker = some (.task c tid s))
+    (h' : (w.leaf l).waker = some (.task c tid' s')) : tid = tid' := by
+  rw [h] at h'
+  cases h'
+  rfl
 
 end Props.C13
